@@ -8,6 +8,7 @@ R: harness.run_c18 (front end decides acceptance; intermediate.revm.translate on
 V: RegexVMTrace: TLC executes the spec's VM on the real program for every string and compares with FullMatch; the C++
    matcher's verdicts are compared with FullMatch as well.
 """
+import concurrent.futures
 import os
 import pathlib
 import shutil
@@ -35,8 +36,11 @@ def main() -> int:
         raise core.MachineryFailure("g++ is missing: the generated C++ matcher cannot be compiled")
     replay = os.environ.get("VERIF_REPLAY")
     # M
+    pool = concurrent.futures.ThreadPoolExecutor(max_workers=1)
+    m_phase = None
     if not replay:
-        ck.model_check("MC_RegexVM", "MC_RegexVM%s.cfg" % suffix, "VM state machine on Translate(tree): verdict = FullMatch = big-step semantics, termination", workers=8, timeout=1700)
+        # runs beside G and R (it involves no repo code); joined before V
+        m_phase = pool.submit(ck.model_check, "MC_RegexVM", "MC_RegexVM%s.cfg" % suffix, "VM state machine on Translate(tree): verdict = FullMatch = big-step semantics, termination", workers=8, timeout=1700)
     if replay:
         cases = [core.read_json(pathlib.Path(replay))["case"]]
         n_gen = n_corpus = 0
@@ -46,7 +50,7 @@ def main() -> int:
         n_gen = len(cases)
         for t in c16.corpus_texts():
             if t.startswith("^") and t.endswith("$") and "\\ud" not in t.lower():
-                cases.append({"src": "corpus", "text": core.cps(t), "alpha": corpus_alphabet(t), "maxlen": 4})
+                cases.append({"src": "corpus", "text": core.cps(t), "alpha": corpus_alphabet(t), "maxlen": 3})
         n_corpus = len(cases) - n_gen
     # distinct inputs only: one case per pattern text (the first one wins: generated trees before tokens / corpus)
     seen_texts = set()
@@ -61,11 +65,15 @@ def main() -> int:
     cases_p = ck.work / "cases.json"
     core.write_json(cases_p, cases)
     obs_p = ck.work / "obs.json"
-    ck.impl("harness.run_c18", [str(cases_p), str(obs_p), "--cpp", str(ck.work / "cpp")], timeout=2400)
+    rp = ck.impl("harness.run_c18", [str(cases_p), str(obs_p), "--cpp", str(ck.work / "cpp")], timeout=2400)
+    ck.notes += [l for l in rp.stdout.splitlines() if l.startswith("timing")]
     obs = core.read_json(obs_p)
     if len(obs) != len(cases):
         raise core.MachineryFailure("runner returned %d observations for %d cases" % (len(obs), len(cases)))
-    violations, counters = ro.validate(ck, "RegexVMTrace", None, obs, "V: spec VM on the real program and the compiled C++ matcher agree with FullMatch", chunk=300 if ck.quick else 1500)
+    if m_phase is not None:
+        m_phase.result()  # a violated design-level property raises MachineryFailure here
+    pool.shutdown()
+    violations, counters = ro.validate(ck, "RegexVMTrace", None, obs, "V: spec VM on the real program and the compiled C++ matcher agree with FullMatch")
     by_key = {}
     for v in violations:
         o = obs[v["n"]]
@@ -99,7 +107,7 @@ def main() -> int:
     ck.assumptions += [
         "TLC, SANY, CommunityModules Json; g++ 12 (C++17) for the generated revm.hpp/.cpp, with a declaration-only stand-in for tl/expected.hpp",
         "the front end's verdict on a pattern is taken from run.load_model on a meta-model that uses the pattern in a verification function",
-        "a C++ Match() call is observed as 'hang' when the program exceeds 400 ms of CPU on the case's strings and the string it got stuck on (length <= 5) does not finish within 2.5 s of CPU on its own either",
+        "a C++ Match() call is observed as 'hang' when the program exceeds 300 ms of CPU on the case's strings and the string it got stuck on (length <= 5) does not finish within 1 s of CPU on its own either",
         "the big-step VM semantics used for conformance is model-checked against the small-step state machine in the same run (M)",
         "wchar_t is 32 bit here: the compiled C++ runs the UTF-32 programs; the UTF-16 programs are run by the spec VM only",
     ]
